@@ -18,4 +18,5 @@ for c in m['checks']:
     if e['level']!=c['level_claimed']['category']: print("LEVEL MISMATCH",c['property_id'],e['level'])
 print("manifest+evidence valid:",len(m['checks']),"checks")
 PY
+python3 /verif/tools/check_findings.py || rc=1
 exit $rc
